@@ -56,6 +56,7 @@ h!(q_iter_dt_n0, iter_dt::<0>());
 h!(q_iter_dt_n2, iter_dt::<2>());
 h!(r0_iter_dt_n1, iter_dt::<1>());
 h!(r1_iter_dt_n3, iter_dt::<3>());
+h!(t_iter_dt_n4, iter_dt::<4>());
 
 fn thin_iter_dt<const N: usize>() {
     let vals: [u8; N] = kani::any();
@@ -88,6 +89,8 @@ h!(q_vec_dt_n1_slack1, vec_dt::<1, 1>());
 h!(r0_vec_dt_n0_slack0, vec_dt::<0, 0>());
 h!(r1_vec_dt_n0_slack1, vec_dt::<0, 1>());
 h!(r2_vec_dt_n3_slack1, vec_dt::<3, 1>());
+h!(t_vec_dt_n4_slack0, vec_dt::<4, 0>());
+h!(t_vec_dt_n2_slack1, vec_dt::<2, 1>());
 
 fn arc_from_vec_dt<const N: usize>() {
     let vals: [u8; N] = kani::any();
@@ -265,6 +268,10 @@ h!(r0_collect_unknown_n0, collect_regime::<0>(Regime::Unknown, false));
 h!(r1_collect_loose_n3, collect_regime::<3>(Regime::Loose, true));
 h!(r2_collect_exact_n3, collect_regime::<3>(Regime::Exact, false));
 h!(r2_collect_loose_n0, collect_regime::<0>(Regime::Loose, false));
+h!(t_collect_exact_n4, collect_regime::<4>(Regime::Exact, true));
+h!(t_collect_unknown_n3, collect_regime::<3>(Regime::Unknown, false));
+h!(t_collect_loose_n1, collect_regime::<1>(Regime::Loose, true));
+h!(t_collect_unknown_n1, collect_regime::<1>(Regime::Unknown, true));
 
 // ---- header-erasing conversions keep contents and ownership
 h!(q_header_erasure, {
